@@ -151,6 +151,7 @@ type OpPlan struct {
 }
 
 type RefStore struct {
+	bareSeq  bool // a refused Create is reported as the bare "wrong last sequence" API error
 	mockErrs bool // conflicts and misses are reported in the mock store's words ("revision mismatch", "key not found")
 	mu      sync.Mutex
 	tr      *Trace
@@ -409,6 +410,10 @@ func (c *Client) Create(key string, value []byte, opts ...interface{}) (uint64, 
 	var err error
 	if r := s.live(key); r != nil {
 		err = fmt.Errorf("%w: %s", wrongSeq(r.rev), "key exists")
+		if s.bareSeq {
+			// the server's own words, without the client's "key exists" on top (other clients, older nats.go)
+			err = wrongSeq(r.rev)
+		}
 		s.tr.logf("apply %d fail exists", o.id)
 	} else {
 		rev = s.writeLocked(key, value)
